@@ -929,3 +929,89 @@ Proof.
     cbn [bind] in Hf; try discriminate.
   inversion Hf; subst h'. apply (glue_good_parsed dbg d _ _ _ _ h r E). destruct types; assumption.
 Qed.
+
+(* ------------------------------------------------------------------ DW_AT_ranges after low_pc / high_pc *)
+
+(* attributes before DW_AT_ranges that cannot end die_ranges early: anything that is not low_pc / high_pc /
+   ranges, a DW_AT_low_pc of class address (not indexed), a DW_AT_high_pc of class address or constant *)
+Definition benign_view (q : ListsRd.aname * ListsRd.aval) : bool :=
+  match q with
+  | (ListsRd.AtOther, _) => true
+  | (ListsRd.AtLowPc, ListsRd.AvAddr _) => true
+  | (ListsRd.AtHighPc, ListsRd.AvAddr _) | (ListsRd.AtHighPc, ListsRd.AvUdata _) => true
+  | _ => false
+  end.
+
+Lemma die_loop_benign u : forall pre k low high size, forallb benign_view pre = true ->
+  exists low' high' size',
+    ListsRd.die_ranges_loop u (pre ++ k) low high size = ListsRd.die_ranges_loop u k low' high' size'.
+Proof.
+  induction pre as [|[a v] pre IH]; intros k low high size H; [exists low, high, size; reflexivity|].
+  cbn [forallb] in H. apply andb_prop in H. destruct H as [Hq Hp]. cbn [app].
+  destruct a; destruct v; cbn [benign_view] in Hq; try discriminate;
+    cbn [ListsRd.die_ranges_loop ListsRd.attr_address bind]; apply IH; exact Hp.
+Qed.
+
+(* once DW_AT_ranges designates a list, what was collected from low_pc / high_pc before is irrelevant *)
+Lemma ranges_attr_indep u v post l h s l' h' s' :
+  (exists o, v = ListsRd.AvRangesRef o) \/ (exists i, v = ListsRd.AvRnglistx i) ->
+  ListsRd.die_ranges_loop u ((ListsRd.AtRanges, v) :: post) l h s =
+  ListsRd.die_ranges_loop u ((ListsRd.AtRanges, v) :: post) l' h' s'.
+Proof.
+  intros [[o ->]|[i ->]]; cbn [ListsRd.die_ranges_loop]; unfold ListsRd.attr_ranges, ListsRd.attr_ranges_offset; cbn [bind].
+  - destruct (ListsRd.raw_ranges _ _ _ _) as [[inp bare]| | |]; reflexivity.
+  - destruct (ListsRd.get_offset _ _ _ _ _) as [off| | |]; cbn [bind]; try reflexivity.
+    destruct (ListsRd.raw_ranges _ _ _ _) as [[inp bare]| | |]; reflexivity.
+Qed.
+
+Lemma die_ranges_benign u pre v post :
+  forallb benign_view pre = true ->
+  (exists o, v = ListsRd.AvRangesRef o) \/ (exists i, v = ListsRd.AvRnglistx i) ->
+  ListsRd.die_ranges u (pre ++ (ListsRd.AtRanges, v) :: post) = ListsRd.die_ranges u ((ListsRd.AtRanges, v) :: post).
+Proof.
+  intros Hp Hv. unfold ListsRd.die_ranges.
+  destruct (die_loop_benign u pre ((ListsRd.AtRanges, v) :: post) None None None Hp) as (l & h & s & ->).
+  apply ranges_attr_indep. exact Hv.
+Qed.
+
+Definition glue_benign (p : rattr) : bool := benign_view (die_attr_view p).
+
+Lemma view_benign l : forallb glue_benign l = true -> forallb benign_view (map die_attr_view l) = true.
+Proof. induction l as [|p l IH]; [reflexivity|]. cbn [forallb map]. unfold glue_benign at 1. intros H.
+       apply andb_prop in H. destruct H as [H1 H2]. rewrite H1, (IH H2). reflexivity. Qed.
+
+(* unit_ranges with DW_AT_ranges after DW_AT_low_pc / DW_AT_high_pc (the usual producer order) *)
+Lemma unit_ranges_list_after_low_pc dbg d u root pre p post o :
+  root_dfs dbg (un_header u) (un_abbrevs u) = Ok root ->
+  d_attrs root = pre ++ p :: post -> forallb glue_benign pre = true ->
+  nm p = Attr.DW_AT_ranges -> val p = VRangeListsRef o ->
+  let x := uctx_of d u in
+  unit_ranges_all dbg d u =
+  ListsRd.ranges_all dbg (ListsRd.u_cfg x) (ListsRd.u_lctx x) (dw_ranges d) (dw_rnglists d)
+    (if dw_dwo d && (version (u_enc (un_header u)) <? 5) then (o + un_rnglists_base u) mod two64 else o)
+    (un_low_pc u).
+Proof.
+  intros Hr Ha Hp Hn Hv x. destruct (unit_ranges_root dbg d u root Hr) as [_ ->].
+  rewrite Ha, map_app. cbn [map]. rewrite (view_named p Attr.DW_AT_ranges ListsRd.AtRanges Hn eq_refl), Hv. cbn [to_aval].
+  unfold ListsRd.die_ranges_all.
+  rewrite (die_ranges_benign x _ (ListsRd.AvRangesRef o) _ (view_benign pre Hp)) by (left; eexists; reflexivity).
+  exact (die_ranges_list dbg x [] (map die_attr_view post) o eq_refl).
+Qed.
+
+Lemma unit_ranges_listx_after_low_pc dbg d u root pre p post i off :
+  root_dfs dbg (un_header u) (un_abbrevs u) = Ok root ->
+  d_attrs root = pre ++ p :: post -> forallb glue_benign pre = true ->
+  nm p = Attr.DW_AT_ranges -> val p = VDebugRngListsIndex i ->
+  N.of_nat (length (dw_rnglists d)) < two64 ->
+  offset_table (dw_be d) (fmt64 (u_enc (un_header u))) (dw_rnglists d) (un_rnglists_base u) i = Some off ->
+  off < two64 ->
+  let x := uctx_of d u in
+  unit_ranges_all dbg d u =
+  ListsRd.ranges_all dbg (ListsRd.u_cfg x) (ListsRd.u_lctx x) (dw_ranges d) (dw_rnglists d) off (un_low_pc u).
+Proof.
+  intros Hr Ha Hp Hn Hv Hlen Ht Hoff x. destruct (unit_ranges_root dbg d u root Hr) as [_ ->].
+  rewrite Ha, map_app. cbn [map]. rewrite (view_named p Attr.DW_AT_ranges ListsRd.AtRanges Hn eq_refl), Hv. cbn [to_aval].
+  unfold ListsRd.die_ranges_all.
+  rewrite (die_ranges_benign x _ (ListsRd.AvRnglistx i) _ (view_benign pre Hp)) by (right; eexists; reflexivity).
+  exact (die_ranges_listx dbg x [] (map die_attr_view post) i off eq_refl Hlen Ht Hoff).
+Qed.
